@@ -108,7 +108,8 @@ package fasthttp
 //@   ensures[accepts] err == nil ==> len(b) > 0 && alldigits(b, len(b)) && octet == decval(b, len(b)) && decval(b, len(b)) <= 255
 //@   ensures[rejects-empty] len(b) == 0 ==> err == errEmptyInt
 //@   ensures[rejects-nondigit] len(b) > 0 && !alldigits(b, len(b)) ==> err != nil
-//@   ensures[complete] len(b) > 0 && alldigits(b, len(b)) && err != nil ==> exists m in [1,len(b)]: decval(b, m) > 255
+//@   ensures[complete] len(b) > 0 && alldigits(b, len(b)) && err != nil ==> err == errIPv4PartTooLarge
+//@   ensures[too-large-means-over-255] err == errIPv4PartTooLarge ==> parsed > 255
 //@   loop 1:
 //@     invariant[digits] alldigits(b, i)
 //@     invariant[value]  octet == decval(b, i) && 0 <= octet && octet <= 255 && parsed == octet
